@@ -228,7 +228,7 @@ class C20(Prop):
     ID = 'C20'
     CORRESPONDENCE = 'PlaybackModel.FileIntercept (prepare/cassetteRT/restoreInput/restoreOutput) vs a full trip through TapeRecorder + cassette'
     RULE = ('full record -> cassette -> replay trips (in-memory, file based, S3 on the boto3 stand-in) with structured '
-            'contents (empty, all 256 byte values, CR/LF mixes, the placeholder text, limit-1/limit/limit+1 bytes, files of tens / hundreds of KB and of more than 1 MB within the limit, contents that are themselves zlib / gzip / base64 payloads, random '
+            'contents (empty, all 256 byte values, CR/LF mixes, the placeholder text, limit-1/limit/limit+1 bytes, files of tens / hundreds of KB and of more than 1 MB (also exactly 4 and 8 MB) within the limit, contents that are themselves zlib / gzip / base64 payloads, random '
             'binary), path positional/keyword/decoy/falsy keyword, limit explicit/environment/default, plus unit cases '
             'for path selection and the size rule; a case is non-trivial when a file was recorded (trip) or a size was '
             'classified (limit) or a path selected (path); distinct = distinct canonical case')
@@ -376,7 +376,9 @@ class C20(Prop):
             cases.append(self.mk_trip(rng, {'hex': rng.randbytes(size).hex()}, lim, out={'hex': rng.randbytes(size // 2 + 1).hex()},
                                       cassette=rng.choice(['mem', 'file', 's3'])))
         # 4c. files of more than a MB that are still within the limit (chunked readers / encoders)
-        for size, lim in [(MB + 1, {'explicit': {'int': 3}}), (MB + 4099, {"explicit": None, "env": None})][:1 if quick else 2]:
+        # (and of exactly 4 / 8 MB: whole multiples of the block sizes such code tends to use)
+        for size, lim in [(MB + 1, {'explicit': {'int': 3}}), (4 * MB, {'explicit': {'int': 5}}), (MB + 4099, {"explicit": None, "env": None}),
+                          (8 * MB, {"explicit": None, "env": None})][:2 if quick else 4]:
             cases.append(self.mk_trip(rng, {'zeros': size}, lim, out={'hex': '00'}, cassette=rng.choice(['mem', 'file'])))
         # 5. calls that do not name a usable path
         for _ in range(6 if quick else 60):
@@ -781,7 +783,7 @@ class C20(Prop):
         # ---- input
         if in_path_tok == 'P':
             size = content_size(case['in'])
-            original = digest_hex(materialise(case['in']).hex()) if size <= 4 * MB else None
+            original = digest_hex(materialise(case['in']).hex()) if size <= 16 * MB else None
             if documented_above(size, case['limit']):
                 if impl['in']['stored'] != ph:
                     fails.append('input file of %d bytes is above the limit but is not represented by the placeholder' % size)
